@@ -22,10 +22,6 @@ Definition coll_name (c : coll) : str :=
   | CNamelists => s "namelists"
   end.
 
-(* the exceptions load_external_modules contains; [load] maps exactly the fetch states that raise
-   one of these (URL error; syntactically corrupt JSON) to OContained *)
-Definition CAUGHT : list str := [s "URLError"; s "json.JSONDecodeError"].
-
 Theorem tables_fingerprint :
   ATTRIBUTES_src = ATTRIBUTES /\
   ENTITIES_src = map (fun kc => (fst kc, xcls_name (snd kc))) ENTITIES /\
